@@ -586,5 +586,12 @@ func (cu *CellUnion) decode(d *decoder) {
 	*cu = make([]CellID, n)
 	for i := range *cu {
 		(*cu)[i].decode(d)
+		if d.err != nil {
+			return
+		}
+		if !(*cu)[i].IsValid() {
+			d.err = fmt.Errorf("invalid cell id %#x", uint64((*cu)[i]))
+			return
+		}
 	}
 }
